@@ -3,6 +3,7 @@ import JediModel.Lemmas.PyCoreExact
 import JediModel.Gen.C02
 import JediModel.Lemmas.ArgBind
 import JediModel.Lemmas.FlowCache
+import JediModel.Lemmas.ClassLookup
 /-! # C02 — Inferred types agree with what the program does when executed
 
 `evalC` is the concrete semantics of the PyCore fragment (validated against CPython on every
@@ -319,5 +320,43 @@ theorem unrolled_loop_direct_cache_witness :
   decide
 
 end Flow
+
+/-! ## Class-level lookup of an inherited classmethod (Model/ClassLookup) -/
+namespace Lookup
+open JediModel.ClassLookup
+
+/-- the facts read from `klass.py:ClassMixin.get_filters`, `ClassFilter`, `ClassName.infer` and
+`stdlib.py:ClassMethodObject.py__get__`: the filter of every MRO class carries the class the
+attribute is looked up on, and that class value reaches `ClassMethodGet` unchanged -/
+theorem lookup_source_is_modelled :
+    JediModel.Gen.C02.classFilterCarriesLookupClass = true ∧
+    JediModel.Gen.C02.classValueReachesClassmethod = true := by
+  decide
+
+/-- **An inherited classmethod is bound to the class it is reached through.**  For every
+single-inheritance hierarchy (any number of classes, any depth), every class `c` and every name:
+`c.name` for a classmethod defined on `c` or on any of its bases binds `cls` to exactly the class
+CPython binds it to - `c` itself, never the defining base - so `return cls()` creates an instance
+of the class the run creates one of. -/
+theorem classmethod_bound_to_lookup_class (h : Hier) (c : ClsId) (n : Name) :
+    jediBoundCls JediModel.Gen.C02.classFilterCarriesLookupClass h c n = pyBoundCls h c n := by
+  rw [lookup_source_is_modelled.1]
+  exact bound_ref h c n
+
+/-- `class K0:` / `    @classmethod` / `    def make(cls): return cls()` / `class K1(K0): pass` /
+`class K2(K1): pass` -/
+def hierExample : Hier := [⟨none, [0]⟩, ⟨some 0, []⟩, ⟨some 1, []⟩]
+
+example : jediBoundCls JediModel.Gen.C02.classFilterCarriesLookupClass hierExample 2 0 = some 2 ∧
+    mro hierExample 2 = [2, 1, 0] := by
+  decide
+
+/-- **The filter must carry the lookup class**: with the MRO class in the filter (`ClassFilter(cls,
+..)`) `K2.make()` binds `cls` to the defining class `K0` while the run binds `K2`. -/
+theorem classmethod_bound_to_defining_class_witness :
+    jediBoundCls false hierExample 2 0 = some 0 ∧ pyBoundCls hierExample 2 0 = some 2 := by
+  decide
+
+end Lookup
 
 end JediModel.Props.C02
